@@ -109,6 +109,7 @@ func (h *Harness) CountStats(e *Engine) {
 	r.Count("nested_publishes", int64(st.NestedPubs))
 	r.Count("queries_compared", int64(st.Queries))
 	r.Count("once_fired", int64(st.Zombies))
+	r.Count("unsubscribes_of_a_once_handler_fired_by_the_running_publish", int64(st.ZombieUnsubs))
 	r.Count("panicking_invocations", int64(st.Panics))
 	r.Count("mid_publish_cancels", int64(st.Cancels))
 	r.Count("trace_events", int64(len(e.Trace)))
